@@ -389,6 +389,22 @@ def escape(F, rep, fm):
                 rep.add(Finding("ESCAPE", "ESCAPE|escape_string|" + inst,
                                 "escape_string writes %r for %s but %s: the literal's value changes when re-lexed"
                                 % (strs, inst, why), file=esc.file, line=esc.line, fn=esc.path))
+        # every escape the function can write at all (also from a guarded arm or a format template, which the
+        # per-character table above does not see) is one the text lexer decodes
+        from engines import all_string_constants, fn_fmt_templates
+        texts = {v for _, v in all_string_constants(esc)} | set(fn_fmt_templates(esc))
+        for txt in sorted(texts):
+            if len(txt) < 2 or txt[0] != "\\":
+                continue
+            e = ord(txt[1])
+            good = e in dec or (e == 0x22 and quote_guard) or e == 0x5C and dec.get(0x5C) == 0x5C
+            inst = "escape_string:writes:%s" % txt[:2]
+            rep.oblige("ESCAPE", inst, good, sample={"rule": "ESCAPE", "written": txt, "lexer_decodes": good})
+            if not good:
+                rep.add(Finding("ESCAPE", "ESCAPE|escape_string|writes:%s" % txt[:2],
+                                "escape_string can write `%s`, an escape the text lexer (scan_text_escape) does not "
+                                "decode: the backslash is kept verbatim, so the next `incan fmt` doubles it and the "
+                                "literal's value changes" % txt, file=esc.file, line=esc.line, fn=esc.path))
         # the characters that must be escaped inside a double-quoted literal
         for must in (0x22, 0x5C, 0x0A):
             ok = must in etab
